@@ -52,6 +52,11 @@ CLAIMED = {
         note=PROOF_NOTE + "lint passes being severity-independent is structural in the model and validated by the same-findings comparison.",
         technique="Lean 4 theorems + regenerated lint/severity table + same-program-under-random-configurations correspondence + CLI runs",
         design="§4 C10"),
+    "C12": dict(
+        text="Lean 4: the lazily initialised global tree (OnceCell) is threaded as explicit state through every lookup and proved unobservable - any history of lookups through one checker answers exactly like fresh stateless lookups, wherever a query occurs (C12_history, C12_order_independent); the one hash-map iteration that reaches a diagnostic (possible standard libraries) yields the same sorted list for every iteration order (C12_hash_order, via mergeSort/permutation lemmas). Tied to the code by running one shared Arc<Checker> over shuffled sequences and 8 threads vs fresh runs (content and order), CLI process restarts, lookup histories through one library value vs the cache model, and a source audit for un-sorted hash iteration.",
+        note=PROOF_NOTE + "PARTIAL by nature: memory-level thread interleavings are Rust's Sync guarantee, schedules are sampled; hash lookups are assumed order-free, iteration is audited by regex.",
+        technique="Lean 4 refinement of the cached checker to a pure function + permutation-invariance theorem + shared-checker / multi-thread / process-restart differential runs + hash-iteration source audit",
+        design="§4 C12"),
     "C13": dict(
         text="Lean 4: the modelled lints (scope analysis, undefined_variable, unused_variable, shadowing) are functions of the trivia-free tree in token space and provably cannot observe the layout (C13_layout_free, C13_tables_layout_free, C13_shift: parametricity, by rfl). Tied to the code and extended to every lint by twin runs: each program and two trivia-rewritten twins are linted by the real Checker under two libraries and compared in token space; this exposed eight layout dependencies now fixed in /repo.",
         note=PROOF_NOTE + "PARTIAL by design: layout-independence of lints that are not modelled in Lean rests on the twin runs; documented exceptions (comments_count, filter comments) are not exercised.",
